@@ -110,7 +110,7 @@ class Driver:
             return None
         old = self.infos.get((h.name, op["svc"]["name"].lower()))
         inflight = any(e.get("info") is old and e["t_done"] is None for e in self.w.api_log if e["op"] == "register")
-        if op.get("mutate") and old is not None and not inflight and \
+        if op.get("mutate") and old is not None and not inflight and old.type == op["svc"]["type"] and \
                 (old.server or "").lower() == (op["svc"].get("server") or op["svc"]["name"]).lower():
             # the application keeps its ServiceInfo object, changes it in place and calls update
             fresh = mk_info(op["svc"])
